@@ -11,6 +11,9 @@ from sa.props._lib_d import (NONNULL, call_nodes, calls_with, const_value_is, co
                              test_value, value_returned)
 
 PROPERTY = "C15"
+INCLUDE = [("C14", None, "abstract.FileDescriptor write buffering is the mechanism that hands the written bytes to the socket and "
+            "decides when the connection is closed: every C14 clause on doWrite/write/loseConnection is a necessary clause of "
+            "'the peer receives exactly the bytes written ... connectionLost exactly once'")]
 TCP = "internet/tcp.py"
 SEL = "internet/selectreactor.py"
 POLL = "internet/pollreactor.py"
